@@ -105,3 +105,10 @@ package keeper
 //@ ensures [no-channel] !old(k.GetProviderChannel(ctx)).1 ==> S == old(S) && E == old(E) && X == old(X)
 //@ ensures [slash-packet-kept] old(k.GetProviderChannel(ctx)).1 ==> forall j int :: 0 <= j && j < len(idxsForDeletion) ==> idxsForDeletion[j] == pending[j].Idx && pending[j].Type != ccv.SlashPacket
 //@ ensures [only-sent-deleted] old(k.GetProviderChannel(ctx)).1 ==> $DeletePendingDataPackets.called && len($DeletePendingDataPackets.idxs) == len(idxsForDeletion) && (forall j int :: 0 <= j && j < len(idxsForDeletion) ==> $DeletePendingDataPackets.idxs[j] == idxsForDeletion[j])
+
+//@ func Keeper.VerifyProviderChain
+//@ let conn := old(k.connectionKeeper.GetConnection(ctx, connectionHops[0]))
+//@ let cl := old(k.GetProviderClientID(ctx))
+//@ ensures [direct-connection] len(connectionHops) != 1 ==> result != nil
+//@ ensures [def] result == nil <==> len(connectionHops) == 1 && conn.1 && cl.1 && cl.0 == conn.0.ClientId
+//@ ensures [pure] S == old(S) && E == old(E) && X == old(X)
